@@ -264,9 +264,77 @@ def rule_e(ctx):
     ctx.floor(R, 6)
 
 
+def rule_f(ctx):
+    R = "C11.f"
+    ctx.rule(R, "superposition canvas is the bounding box of the inputs: per Cartesian axis, the canvas origin (corner of voxel 0) takes the "
+             "extremum on the side the matrix axis starts from (max when the axis is reversed per the axis table, min otherwise) and the "
+             "opposite corner the other extremum, over the stacked origins resp. opposite corners of all images; dimensions = |opposite - "
+             "origin| permuted to matrix order; every image is warped to that canvas and added (+=) to one zero-initialised array")
+    m = ctx.model
+    ARI = "darsia.image.arithmetics"
+    ctx.consult(ARI)
+    f = m.func(ARI, "superpose")
+    imgs = f.params[0]
+    am = AM(f)
+    ctx.instance(R)
+    src_ok = am.has(f.node, f"collection_origin = np.vstack(tuple((im.origin for im in {imgs})))") is not None \
+        and am.has(f.node, f"collection_opposite = np.vstack(tuple((im.opposite_corner for im in {imgs})))") is not None
+    ctx.ob(R, f.qname, "the corner collections stack origin resp. opposite_corner of every input image", src_ok, str(am.show()), f.node)
+    CO, CP = am.actual("collection_origin"), am.actual("collection_opposite")
+    src_ok = src_ok and am.has(f.node, f"indexing = {imgs}[0].indexing") is not None and am.has(f.node, f"space_dim = {imgs}[0].space_dim") is not None
+    loops = [l for l in ast.walk(f.node) if isinstance(l, ast.For) and any(isinstance(s, ast.Assign) and isinstance(s.value, ast.Call) and norm(s.value.func) == "darsia.interpret_indexing" for s in l.body)]
+    ok = False
+    desc = ""
+    if src_ok and len(loops) == 1:
+        lp = loops[0]
+        i = norm(lp.target)
+        tr = [s for s in lp.body if isinstance(s, ast.Assign)]
+        iff = [s for s in lp.body if isinstance(s, ast.If)]
+        if len(tr) == 1 and len(iff) == 1 and isinstance(tr[0].targets[0], ast.Tuple) and len(tr[0].targets[0].elts) == 2 \
+                and [norm(a) for a in tr[0].value.args] == [f"'xyz'[{i}]", am.actual("indexing") or "indexing"] and norm(iff[0].test) == norm(tr[0].targets[0].elts[1]):
+            def arm(stmts):
+                got = {}
+                for s_ in stmts:
+                    c = s_.value if isinstance(s_, ast.Expr) else None
+                    if isinstance(c, ast.Call) and isinstance(c.func, ast.Attribute) and c.func.attr == "append" and len(c.args) == 1 and isinstance(c.args[0], ast.Call) \
+                            and norm(c.args[0].func) in ("np.max", "np.min", "np.amax", "np.amin") and len(c.args[0].args) == 1:
+                        col = norm(c.args[0].args[0])
+                        kind = "origin" if col == f"{CO}[:, {i}]" else ("opposite" if col == f"{CP}[:, {i}]" else None)
+                        got[(norm(c.func.value), kind)] = "max" if "max" in norm(c.args[0].func) else "min"
+                return got
+            a_rev, a_fwd = arm(iff[0].body), arm(iff[0].orelse)
+            desc = f"reversed: {a_rev}; not reversed: {a_fwd}"
+            lists = sorted({k[0] for k in a_rev})
+            if len(a_rev) == 2 and len(a_fwd) == 2 and len(lists) == 2:
+                o_list = next((k[0] for k, v in a_rev.items() if k[1] == "origin"), None)
+                p_list = next((k[0] for k, v in a_rev.items() if k[1] == "opposite"), None)
+                ok = (o_list is not None and p_list is not None and o_list != p_list
+                      and a_rev.get((o_list, "origin")) == "max" and a_rev.get((p_list, "opposite")) == "min"
+                      and a_fwd.get((o_list, "origin")) == "min" and a_fwd.get((p_list, "opposite")) == "max")
+                if ok:
+                    am.bind.setdefault("origin", o_list)
+                    am.bind.setdefault("opposite", p_list)
+    ctx.ob(R, f.qname, "per axis: reversed -> (origin = max, opposite = min), otherwise (origin = min, opposite = max)", ok,
+           desc + " -- the canvas would not contain every input image: parts are clipped and the integral is lost", loops[0] if loops else f.node)
+    dims_ok = ok and all(am.has(f.node, t) is not None for t in (
+        "cart_dims = [abs(opposite[k] - origin[k]) for k in range(space_dim)]",
+        "to_matrix = [darsia.interpret_indexing('ijk'[k], 'xyz'[:space_dim])[0] for k in range(space_dim)]",
+        "dims = [cart_dims[k] for k in to_matrix]"))
+    ctx.ob(R, f.qname, "dimensions = |opposite - origin| per Cartesian axis, permuted to matrix order", dims_ok, str(am.show()), f.node)
+    meta = [d for d in ast.walk(f.node) if isinstance(d, ast.Dict) and any(isinstance(k, ast.Constant) and k.value == "dimensions" for k in d.keys)]
+    mk = {k.value: norm(v) for d in meta[:1] for k, v in zip(d.keys, d.values) if isinstance(k, ast.Constant)}
+    ctx.ob(R, f.qname, "the canvas metadata carries those dimensions and that origin", dims_ok and len(meta) == 1 and mk.get("dimensions") == am.actual("dims") and mk.get("origin") == am.actual("origin"), str(mk), f.node)
+    adds = [s_ for s_ in ast.walk(f.node) if isinstance(s_, (ast.AugAssign, ast.Assign)) and ".img" in norm(s_.target if isinstance(s_, ast.AugAssign) else s_.targets[0])]
+    ctx.ob(R, f.qname, "every warped input is added (+=) to the canvas array", len(adds) == 2 and all(isinstance(a, ast.AugAssign) and isinstance(a.op, ast.Add) for a in adds), str([norm(a) for a in adds]), f.node)
+    zero = am.has(f.node, "canvas = np.zeros(shape, dtype=dtype)")
+    ctx.ob(R, f.qname, "the canvas array starts from zeros", zero is not None, "", f.node)
+    ctx.floor(R, 1)
+
+
 def run(ctx):
     rule_a(ctx)
     rule_b(ctx)
     rule_c(ctx)
     rule_d(ctx)
     rule_e(ctx)
+    rule_f(ctx)
